@@ -42,6 +42,9 @@ func (propC03) Gen(seed uint64, tier string, idx int) *Plan {
 		ep.CheckTimeout = time.Second
 		ep.Models = []string{"m1"}
 		ep.Default = Resp{Kind: "llm", Status: 200}
+		if r.Chance(300) {
+			ep.Default.PreDelay = pickS(r, []time.Duration{300 * time.Millisecond, time.Second, 1800 * time.Millisecond}) // a slow fail-over target keeps a failing request busy
+		}
 		t := Always
 		for t < total {
 			mode := pickS(r, c03Phases)
@@ -251,7 +254,16 @@ func (propC03) Check(r *Run) []Violation {
 				continue
 			}
 			c2 := res[y.Nonce]
-			if c2 == nil || c2.StartAt <= c1.DoneAt {
+			// "a failed attempt completed before the request arrived": the reset is on the wire at failAt and
+			// in front of the engine one network delay later; from then on (plus slack) the attempt is over,
+			// whether or not the request it belonged to is still busy failing over
+			over := failAt + 4*(r.Plan.Net.BaseLatency+r.Plan.Net.Jitter) + 50*time.Millisecond
+			if r.Plan.StmtYieldPermille > 0 {
+				// with scheduling delays injected between the statements of the retry path the engine may
+				// legitimately still be working on the failure: only the end of that request is certain
+				over = c1.DoneAt
+			}
+			if c2 == nil || c2.StartAt <= over {
 				continue
 			}
 			readmitted := false
